@@ -3,7 +3,7 @@
 cd /verif
 out=${1:-/tmp/mutants.tsv}
 : > $out
-for d in seeded/*/; do
+for d in $(ls -d seeded/*_[34]/ 2>/dev/null) $(ls -d seeded/*_[12]/); do
   m=$(basename $d); pid=${m%%_*}
   if ! git -C /repo apply --check $PWD/$d/patch.diff 2>/dev/null; then echo -e "$m\tPATCH-DOES-NOT-APPLY" >> $out; continue; fi
   git -C /repo apply $PWD/$d/patch.diff
